@@ -1,6 +1,224 @@
-//! C09 — not implemented yet.
+//! C09 — view and change-of-basis matrices are rigid and place eye, target, axes right.
+#![allow(deprecated)]
+
+use vek::mat::repr_c::column_major as cm;
+use vek::mat::repr_c::row_major as rm;
+use vkit::gens;
+use vkit::refmath as rf;
+use vkit::vk::{self, MatN};
 use vkit::*;
 
+const K: f64 = 4096.0;
+
+fn pow2<S: Dom>(e: i64) -> S {
+    if e >= 0 {
+        S::i(1i64 << e)
+    } else {
+        S::q(1, 1i64 << (-e))
+    }
+}
+
+struct View<S> {
+    eye: [S; 3],
+    target: [S; 3],
+    up: [S; 3],
+    dist: S,       // |target - eye|, exact in Rat
+    sin_up: f64,   // sine of the angle between up and forward
+}
+
+/// eye/target/up. Exact domains: built from a rational orthonormal frame so that both normalisations
+/// (|target-eye| and |up x forward|) are rational; lengths vary over many orders of magnitude.
+fn gen_view<S: Dom>(t: &mut Tape, cx: &mut Cx) -> View<S> {
+    if S::EXACT || t.bool() {
+        let r = gens::rotation3::<S>(t); // columns: s, u, f
+        let col = |j: usize| [r[0][j], r[1][j], r[2][j]];
+        let (u, f) = (col(1), col(2));
+        let eye: [S; 3] = vk::gen_vec(t, 20);
+        let l = S::q(t.int(1, 20), t.pick(&[1i64, 2, 3, 7])) * pow2::<S>(t.int(-12, 12));
+        let target = rf::addv(&eye, &rf::scale(&f, l));
+        // up = a u + b f, a > 0 (not parallel); b != 0 in most cases (not perpendicular)
+        let up_scale_exp = if t.chance(96) { t.int(-36, 20) } else { t.int(-3, 3) };
+        if up_scale_exp < -20 {
+            cx.label("tiny-up");
+        }
+        let a = S::q(t.int(1, 9), t.pick(&[1i64, 2, 5]));
+        let b = S::q(t.int(-12, 12), t.pick(&[1i64, 1, 3]));
+        if b.is_zero() {
+            cx.label("up-perpendicular");
+        }
+        let sc = pow2::<S>(up_scale_exp);
+        let up = rf::scale(&rf::addv(&rf::scale(&u, a), &rf::scale(&f, b)), sc);
+        let sin_up = a.f() / (a.f() * a.f() + b.f() * b.f()).sqrt();
+        cx.label("constructed-frame");
+        View { eye, target, up, dist: l, sin_up }
+    } else {
+        cx.label("random-floats");
+        let cast = |x: f64| <S as num_traits::NumCast>::from(x).unwrap();
+        let eye = [t.range_f64(-50.0, 50.0), t.range_f64(-50.0, 50.0), t.range_f64(-50.0, 50.0)];
+        let mut d = [t.range_f64(-1.0, 1.0), t.range_f64(-1.0, 1.0), t.range_f64(-1.0, 1.0)];
+        let mut dn = (d[0] * d[0] + d[1] * d[1] + d[2] * d[2]).sqrt();
+        if dn < 0.05 {
+            d = [0.3, -0.4, 0.5];
+            dn = (0.5f64).sqrt();
+        }
+        let l = t.pick(&[1.0f64, 0.01, 100.0, 7.5, 1e-3]);
+        let target = [eye[0] + d[0] / dn * l, eye[1] + d[1] / dn * l, eye[2] + d[2] / dn * l];
+        let mut up = [t.range_f64(-1.0, 1.0), t.range_f64(-1.0, 1.0), t.range_f64(-1.0, 1.0)];
+        if t.chance(64) {
+            up = [[0.0, 1.0, 0.0], [0.0, 0.0, 1.0], [1.0, 0.0, 0.0], [0.0, -1.0, 0.0]][t.below(4)];
+        }
+        let e = View { eye: [cast(eye[0]), cast(eye[1]), cast(eye[2])], target: [cast(target[0]), cast(target[1]), cast(target[2])], up: [S::zero(); 3], dist: S::zero(), sin_up: 0.0 };
+        // measure on the values as rounded into S
+        let fw = rf::subv(&e.target, &e.eye);
+        let fl = rf::dot(&fw, &fw).f().sqrt();
+        let upn = (up[0] * up[0] + up[1] * up[1] + up[2] * up[2]).sqrt().max(1e-9);
+        let cr = [up[1] * fw[2].f() - up[2] * fw[1].f(), up[2] * fw[0].f() - up[0] * fw[2].f(), up[0] * fw[1].f() - up[1] * fw[0].f()];
+        let sin_up = (cr[0] * cr[0] + cr[1] * cr[1] + cr[2] * cr[2]).sqrt() / (fl * upn);
+        let us = t.pick(&[1.0f64, 1e-4, 1e-9, 1e6, 3.0]);
+        if us < 1e-3 {
+            cx.label("tiny-up");
+        }
+        View { up: [cast(up[0] * us), cast(up[1] * us), cast(up[2] * us)], dist: cast(fl), sin_up, ..e }
+    }
+}
+
+fn upper3<S: Dom>(m: &[[S; 4]; 4]) -> [[S; 3]; 3] {
+    let mut r = [[S::zero(); 3]; 3];
+    for i in 0..3 {
+        for j in 0..3 {
+            r[i][j] = m[i][j];
+        }
+    }
+    r
+}
+
+fn look_at<S: Dom>(t: &mut Tape, cx: &mut Cx) -> CaseResult {
+    let v = gen_view::<S>(t, cx);
+    if !S::EXACT && v.sin_up < 0.02 {
+        discard!("precondition:up-within-0.02rad-of-view-direction");
+    }
+    let nz = |a: &[S; 3]| a.iter().all(|x| !x.is_zero());
+    cx.set_nontrivial(nz(&v.eye) && nz(&rf::subv(&v.target, &v.eye)) && nz(&v.up) && v.sin_up < 0.999);
+    sample!(cx, "{} eye={:?} target={:?} up={:?} |target-eye|={:?}", S::NAME, v.eye, v.target, v.up, v.dist);
+    let (eye, target, up) = (vk::v3(&v.eye), vk::v3(&v.target), vk::v3(&v.up));
+    let one = S::one();
+    let id4: [[S; 4]; 4] = rf::identity();
+    let id3: [[S; 3]; 3] = rf::identity();
+    let emax = vk::vec_max(&v.eye).max(vk::vec_max(&v.target)).max(1.0);
+    let cond = 1.0 / v.sin_up.max(1e-6);
+    let k = K * cond * cond;
+    let up_len = rf::dot(&v.up, &v.up).f().sqrt();
+    macro_rules! layout {
+        ($l:ident, $n:expr) => {{
+            for (hand, sign, view, model) in [
+                ("lh", one, $l::Mat4::<S>::look_at_lh(eye, target, up).to_arr(), $l::Mat4::<S>::model_look_at_lh(eye, target, up).to_arr()),
+                ("rh", -one, $l::Mat4::<S>::look_at_rh(eye, target, up).to_arr(), $l::Mat4::<S>::model_look_at_rh(eye, target, up).to_arr()),
+            ] {
+                let what = format!("{} look_at_{}", $n, hand);
+                // rigid, determinant +1
+                check_eq!(cx, view[3], [S::zero(), S::zero(), S::zero(), one], "{}: last row is e4", what);
+                let r = upper3(&view);
+                check_mat!(cx, S, rf::matmul(&rf::transpose(&r), &r), id3, 1.0, k, "{}: upper 3x3 orthogonal", what);
+                check_close!(cx, S, rf::det(&r), one, 1.0, k, "{}: determinant +1", what);
+                // eye -> origin
+                let e = rf::matvec(&view, &[v.eye[0], v.eye[1], v.eye[2], one]);
+                check_vec!(cx, S, [e[0], e[1], e[2]], [S::zero(); 3], emax, k, "{}: eye maps to the origin", what);
+                // target -> (0, 0, +-distance)
+                let tg = rf::matvec(&view, &[v.target[0], v.target[1], v.target[2], one]);
+                check_vec!(cx, S, [tg[0], tg[1], tg[2]], [S::zero(), S::zero(), sign * v.dist], emax.max(v.dist.f()), k, "{}: target on the forward axis at the eye-target distance", what);
+                // up direction: x = 0, y > 0
+                let ud = rf::matvec(&view, &[v.up[0], v.up[1], v.up[2], S::zero()]);
+                check_close!(cx, S, ud[0], S::zero(), up_len, k, "{}: up has no sideways component", what);
+                check!(cx, ud[1] > S::zero(), "{}: up must stay in the upper half-plane, got y = {:?} (view*up = {:?})", what, ud[1], ud);
+                // model matrix is the inverse and sends the origin to the eye
+                check_mat!(cx, S, rf::matmul(&model, &view), id4, emax, k, "{}: model_look_at * look_at = I", what);
+                check_mat!(cx, S, rf::matmul(&view, &model), id4, emax, k, "{}: look_at * model_look_at = I", what);
+                let o = rf::matvec(&model, &[S::zero(), S::zero(), S::zero(), one]);
+                check_eq!(cx, [o[0], o[1], o[2]], v.eye, "{}: model matrix sends the origin to the eye", what);
+                check_eq!(cx, model[3], [S::zero(), S::zero(), S::zero(), one], "{}: model last row is e4", what);
+            }
+            check_eq!(cx, $l::Mat4::<S>::look_at(eye, target, up).to_arr(), $l::Mat4::<S>::look_at_lh(eye, target, up).to_arr(), "{} look_at == look_at_lh", $n);
+            check_eq!(cx, $l::Mat4::<S>::model_look_at(eye, target, up).to_arr(), $l::Mat4::<S>::model_look_at_lh(eye, target, up).to_arr(), "{} model_look_at == model_look_at_lh", $n);
+        }};
+    }
+    layout!(rm, "row-major");
+    layout!(cm, "col-major");
+    Ok(())
+}
+
+fn basis<S: Dom>(t: &mut Tape, cx: &mut Cx) -> CaseResult {
+    let o: [S; 3] = vk::gen_vec(t, 20);
+    let one = S::one();
+    let zero = S::zero();
+    // arbitrary (non-orthonormal) basis for local_to_basis
+    let (i, j, k): ([S; 3], [S; 3], [S; 3]) = (vk::gen_vec(t, 9), vk::gen_vec(t, 9), vk::gen_vec(t, 9));
+    let p: [S; 3] = vk::gen_vec(t, 9);
+    // orthonormal basis (proper or improper) for the inverse clause
+    let r = gens::rotation3::<S>(t);
+    let improper = t.chance(96);
+    if improper {
+        cx.label("improper-basis");
+    }
+    let col = |m: &[[S; 3]; 3], c: usize| [m[0][c], m[1][c], m[2][c]];
+    let (oi, oj, mut ok) = (col(&r, 0), col(&r, 1), col(&r, 2));
+    if improper {
+        ok = [-ok[0], -ok[1], -ok[2]];
+    }
+    cx.set_nontrivial(o.iter().all(|x| !x.is_zero()) && oi.iter().all(|x| !x.is_zero()) && oj.iter().all(|x| !x.is_zero()));
+    sample!(cx, "{} origin={:?} i={:?} j={:?} k={:?} orthonormal=({:?},{:?},{:?}) p={:?}", S::NAME, o, i, j, k, oi, oj, ok, p);
+    let sc = vk::vec_max(&o).max(1.0) * 8.0 * vk::vec_max(&p).max(1.0);
+    macro_rules! layout {
+        ($l:ident, $n:expr) => {{
+            let m = $l::Mat4::<S>::local_to_basis(vk::v3(&o), vk::v3(&i), vk::v3(&j), vk::v3(&k)).to_arr();
+            let at = |x: [S; 3]| { let r = rf::matvec(&m, &[x[0], x[1], x[2], one]); ([r[0], r[1], r[2]], r[3]) };
+            check_eq!(cx, at([zero; 3]), (o, one), "{} local_to_basis: origin", $n);
+            check_eq!(cx, at([one, zero, zero]), (rf::addv(&o, &i), one), "{} local_to_basis: e_x -> origin + i", $n);
+            check_eq!(cx, at([zero, one, zero]), (rf::addv(&o, &j), one), "{} local_to_basis: e_y -> origin + j", $n);
+            check_eq!(cx, at([zero, zero, one]), (rf::addv(&o, &k), one), "{} local_to_basis: e_z -> origin + k", $n);
+            // general point: o + x i + y j + z k
+            let want = rf::addv(&o, &rf::addv(&rf::scale(&i, p[0]), &rf::addv(&rf::scale(&j, p[1]), &rf::scale(&k, p[2]))));
+            check_vec!(cx, S, at(p).0, want, sc * 9.0, K, "{} local_to_basis: general point", $n);
+            // orthonormal basis: basis_to_local undoes local_to_basis
+            let l2b = $l::Mat4::<S>::local_to_basis(vk::v3(&o), vk::v3(&oi), vk::v3(&oj), vk::v3(&ok)).to_arr();
+            let b2l = $l::Mat4::<S>::basis_to_local(vk::v3(&o), vk::v3(&oi), vk::v3(&oj), vk::v3(&ok)).to_arr();
+            let id4: [[S; 4]; 4] = rf::identity();
+            check_mat!(cx, S, rf::matmul(&b2l, &l2b), id4, sc, K, "{} basis_to_local * local_to_basis = I", $n);
+            check_mat!(cx, S, rf::matmul(&l2b, &b2l), id4, sc, K, "{} local_to_basis * basis_to_local = I", $n);
+            let bt = |x: [S; 3]| { let r = rf::matvec(&b2l, &[x[0], x[1], x[2], one]); [r[0], r[1], r[2]] };
+            check_vec!(cx, S, bt(o), [zero; 3], sc, K, "{} basis_to_local: origin -> 0", $n);
+            check_vec!(cx, S, bt(rf::addv(&o, &oi)), [one, zero, zero], sc, K, "{} basis_to_local: origin + i -> e_x", $n);
+            check_vec!(cx, S, bt(rf::addv(&o, &oj)), [zero, one, zero], sc, K, "{} basis_to_local: origin + j -> e_y", $n);
+            check_vec!(cx, S, bt(rf::addv(&o, &ok)), [zero, zero, one], sc, K, "{} basis_to_local: origin + k -> e_z", $n);
+        }};
+    }
+    layout!(rm, "row-major");
+    layout!(cm, "col-major");
+    Ok(())
+}
+
 pub fn property() -> Property {
-    Property { id: "C09", rule: "", assumptions: &[], checks: Vec::new(), max_discard_frac: 0.2 }
+    let mut checks = Vec::new();
+    macro_rules! tape {
+        ($name:expr, $about:expr, $len:expr, $q:expr, $th:expr, $f:expr) => {
+            checks.push(Check { name: $name, about: $about, kind: Kind::Tape { len: $len, quick: $q, thorough: $th, f: $f } });
+        };
+    }
+    let a = "look_at_{lh,rh} / model_look_at_{lh,rh} / deprecated aliases, both layouts: rigid with det +1, eye -> origin, target -> (0,0,+-distance), up in the upper vertical half-plane (x = 0, y > 0), model = inverse and origin -> eye";
+    tape!("look-at-rat", a, 64, 30_000, 800_000, look_at::<Rat>);
+    tape!("look-at-f64", a, 96, 30_000, 800_000, look_at::<f64>);
+    tape!("look-at-f32", a, 96, 20_000, 500_000, look_at::<f32>);
+    let b = "local_to_basis maps 0, e_x, e_y, e_z to origin, origin+i, +j, +k for arbitrary i,j,k; basis_to_local inverts it for orthonormal (proper and improper) bases";
+    tape!("basis-rat", b, 96, 30_000, 800_000, basis::<Rat>);
+    tape!("basis-f64", b, 160, 20_000, 500_000, basis::<f64>);
+    Property {
+        id: "C09",
+        rule: "views built from a rational orthonormal frame: target = eye + L*forward with L spanning 2^-12..2^12, up = scale*(a*u + b*forward) with a > 0, b usually != 0 and scale spanning 2^-36..2^20 (so every normalisation is rational), plus random float views incl. tiny/huge up vectors; bases: arbitrary vectors and rational rotations (1/3 improper); non-trivial = eye, direction and up have three non-zero components and up is not perpendicular; distinct = distinct consumed tape prefix",
+        assumptions: &[
+            "rustc and the proptest runner/shrinker are trusted",
+            "precondition from the property: eye != target and up not parallel to the view direction; float cases within 0.02 rad of parallel are discarded, tolerance scaled by 1/sin^2(angle)",
+            "oracle: validity predicates (rigidity via reference transpose-product and Leibniz determinant, images of eye/target/up) on plain arrays",
+        ],
+        checks,
+        max_discard_frac: 0.2,
+    }
 }
